@@ -192,6 +192,9 @@ func c10Slow(t *tr.Writer, id int, c c10Case) {
 	if c.Fault == "client-timeout" {
 		fnMs, execMs, clientMs = 60, 0, 20
 	}
+	if c.Fault == "abort-many" {
+		fnMs, execMs, clientMs = 400, 0, 0
+	}
 	if execMs > 0 {
 		svc.Use(timeout.New(time.Duration(execMs) * time.Millisecond))
 	}
@@ -231,7 +234,36 @@ func c10Slow(t *tr.Writer, id int, c c10Case) {
 	}
 	call(1, 1, false, 2000)
 	var wg sync.WaitGroup
-	for cc := 2; cc <= 9; cc++ {
+	if c.Fault == "abort-many" {
+		// several calls are pending when Abort is called: every one of them returns promptly with an error
+		for cc := 2; cc <= 5; cc++ {
+			wg.Add(1)
+			go func(cc int) {
+				defer wg.Done()
+				t.Emit(tr.Rec{"ev": "callB", "c": cc, "n": 1})
+				t0 := time.Now()
+				_, err := client.Invoke("echo", []interface{}{muxPayload(cc, 1), true})
+				kind, msg := "resp", ""
+				if err != nil {
+					kind, msg = "err", err.Error()
+				}
+				// measured from the Abort (40 ms after the start); a response would be the wrong outcome
+				ms := int(time.Since(t0)/time.Millisecond) - 40
+				if ms < 0 {
+					ms = 0
+				}
+				if kind == "resp" {
+					ms = 100000
+				}
+				t.Emit(tr.Rec{"ev": "ret", "c": cc, "n": 1, "kind": kind, "rc": -1, "rn": -1, "ms": ms, "bound": 200, "err": msg})
+			}(cc)
+		}
+		time.Sleep(40 * time.Millisecond)
+		client.Abort()
+		wg.Wait()
+		time.Sleep(time.Duration(fnMs) * time.Millisecond) // the functions end
+	}
+	for cc := 2; cc <= 9 && c.Fault != "abort-many"; cc++ {
 		wg.Add(1)
 		go func(cc int) {
 			defer wg.Done()
@@ -275,7 +307,11 @@ func inFlightGoroutines() int {
 func c10Run(t *tr.Writer, id int, c c10Case) {
 	Watch(id, tr.Rec{"kind": c.Kind, "fault": c.Fault}, c)
 	t.Reset(id, tr.Rec{"kind": c.Kind, "fault": c.Fault, "mustfail": false, "input": c})
-	if c.Fault == "exec-timeout" || c.Fault == "client-timeout" {
+	if c.Fault == "reverse-giveup" {
+		c10ReverseGiveup(t, c)
+		return
+	}
+	if c.Fault == "exec-timeout" || c.Fault == "client-timeout" || c.Fault == "abort-many" {
 		c10Slow(t, id, c)
 		return
 	}
@@ -609,12 +645,18 @@ func runC10(a Args) tr.Summary {
 		}
 	}
 	for _, kind := range []string{"mock", "tcp", "http", "udp"} {
-		for _, f := range []string{"exec-timeout", "client-timeout"} {
+		for _, f := range []string{"exec-timeout", "client-timeout", "abort-many"} {
 			id++
 			c := c10Case{Kind: kind, Fault: f}
 			c10Run(t, id, c)
 			nontrivial[fmt.Sprint(c)] = true
 		}
+	}
+	for _, kind := range []string{"mock", "tcp"} {
+		id++
+		c := c10Case{Kind: kind, Fault: "reverse-giveup"}
+		c10Run(t, id, c)
+		nontrivial[fmt.Sprint(c)] = true
 	}
 	sum.Cases = id
 	sum.Events = t.Lines
@@ -638,6 +680,10 @@ type c09Case struct {
 func c09Run(t *tr.Writer, id int, c c09Case) {
 	Watch(id, tr.Rec{"kind": c.Kind, "mode": c.Mode}, c)
 	t.Reset(id, tr.Rec{"kind": c.Kind, "mode": c.Mode, "mustfail": false, "healthy": c.Kind != "udp", "input": c})
+	if c.Mode == "realfns" {
+		c09RealFns(t, c)
+		return
+	}
 	if strings.HasPrefix(c.Mode, "rcall") {
 		c09Reverse(t, id, c)
 		return
@@ -779,6 +825,11 @@ func runC09(a Args) tr.Summary {
 				}
 			}
 		}
+	}
+	for _, kind := range []string{"tcp", "unix", "ws", "udp"} {
+		id++
+		c := c09Case{kind, "realfns", 16, calls * 8, a.Seed*1000 + int64(id)}
+		c09Run(t, id, c)
 	}
 	for _, kind := range []string{"tcp", "mock"} {
 		for _, mode := range []string{"rcall", "rcall-idle", "rcall-idlestop", "rcall-race", "rcall-stale", "rcall-wake", "rcall-script"} {
